@@ -435,6 +435,11 @@ def main():
     ap.add_argument('--fast', action='store_true')
     a = ap.parse_args()
     seed = int(os.environ.get('VERIF_SEED', '0') or 0)
+    _b = int(os.environ.get('VERIF_WALL_BUDGET_EFFECTIVE', '0') or 0)
+    if _b > 90:
+        # shortly before the wrapper ends an over-long run: leave the Python stack of every thread on stderr
+        import faulthandler
+        faulthandler.dump_traceback_later(_b - 45, exit=False)
     if a.what == 'replay':
         rc, doc, err = native(['replay', '--file', os.path.abspath(a.arg)])
         print(json.dumps(doc, indent=1) if doc else err)
